@@ -115,4 +115,32 @@ theorem extract_eq (acc : Acc) (fl sup : Bool) (t : T) (hnd : (ids t).Nodup) :
     | k1 :: k2 :: r, true => simp [hs, hd, ExRes.toOption]
     | k1 :: k2 :: r, false => simp [hs, hd, ExRes.toOption]
 
+/-- the same with the exception kind: `ValueError` when the seed is a leaf the filter rejects, `SeedNodeDeletionException`
+    when the seed has children and none of them survives -/
+theorem extract_full (acc : Acc) (fl sup : Bool) (t : T) (hnd : (ids t).Nodup) :
+    extractTree acc fl false sup t =
+      match restrict (leafKeep fl acc) sup t with
+      | some r => .ok r
+      | none => if t.cs.isEmpty then .valueError else .seedDeletion := by
+  obtain ⟨i, x, l, s, cs⟩ := t
+  simp only [ids, List.nodup_cons] at hnd
+  obtain ⟨h1, h2, _, h4⟩ := fold_postL acc fl sup i cs {} hnd.1 hnd.2 (fun j _ => by simp [List.lookup])
+  simp only [extractTree, post, List.foldl_append, List.foldl_cons, List.foldl_nil, T.id]
+  generalize (postL cs).foldl (exStep acc fl false sup i) {} = st1 at h1 h2 h4
+  have hs : st1.start = none := h1
+  have hd : st1.seedDeleted = false := h2
+  cases cs with
+  | nil =>
+    simp only [exStep, kidsOf, restrict, leafKeep, List.isEmpty_nil, if_true, T.cs]
+    cases fl <;> by_cases ha : acc i x = true <;> simp [hs, hd, ha]
+  | cons c cs' =>
+    simp only [exStep, restrict, h4, List.isEmpty_cons, Bool.false_eq_true, if_false, Bool.false_and, T.cs]
+    generalize restrictL (leafKeep fl acc) sup (c :: cs') = ks
+    match ks, sup with
+    | [], _ => simp [hs, hd]
+    | [k], true => simp [hs, hd]
+    | [k], false => simp [hs, hd]
+    | k1 :: k2 :: r, true => simp [hs, hd]
+    | k1 :: k2 :: r, false => simp [hs, hd]
+
 end DendroModel.C08.Aux
